@@ -231,6 +231,8 @@ def polyline_split(sx):
     mesh = meshgen.build(P, edges)
     if sx.flag("connectivity_queried_before"):
         mesh.connectivity.vertex_to_vertices(0)
+        mesh.connectivity.edge_id(0, 1)
+        mesh.connectivity.vertex_to_edges(0)
     e = sx.choice("edge", len(edges))
     E0 = [tuple(int(x) for x in x2) for x2 in mesh.edges]
     a, b = E0[e]
@@ -254,6 +256,15 @@ def polyline_split(sx):
     sx.check(len(comps0) == len(comps1), "split_edge keeps the number of connected components")
     nb = sorted(int(v) for v in out.connectivity.vertex_to_vertices(c))
     sx.check(nb == sorted([a, b]), "connectivity of the result describes the refined polyline", detail=str(nb))
+    eid = {oracle.key2(*x): i for i, x in enumerate(E1)}
+    good = True
+    for u in range(n + 1):
+        good &= sorted(int(v) for v in out.connectivity.vertex_to_vertices(u)) == sorted(w for k in eid for w in k if u in k and w != u)
+        for v in range(n + 1):
+            if u != v:
+                good &= out.connectivity.edge_id(u, v) == eid.get(oracle.key2(u, v))
+    sx.check(bool(good), "every edge identifier and vertex neighbourhood of the result describes the refined polyline",
+             detail="edge_id(%d,%d) = %r" % (a, b, out.connectivity.edge_id(a, b)))
 
 
 VOLS = {"tet1": (4, [(0, 1, 2, 3)]), "tet2": (5, [(0, 1, 2, 3), (1, 2, 3, 4)])}
